@@ -336,6 +336,18 @@ def CATALOGUE():
     add("start", ["start", "toasync"], lambda W, S, P, s: rx.start(lambda: W.v(P["d"]), s))
     add("from_callable", ["returnvalue"], lambda W, S, P, s: rx.from_callable(lambda: W.v(P["d"])))
     add("generate", ["generate"], lambda W, S, P, s: rx.generate(0, lambda i: i < len(P["seq"]), lambda i: i + 1).pipe(ops.map(lambda i: W.v(P["seq"][i]))))
+    # marble sources whose lookup VALUES range over the domain (a marble mapped to a falsy element is still that element)
+    def marbles(P):
+        names = ["a", "b", "c", "d", "e", "1", "2"]
+        return "-" + "-".join(names[k % len(names)] for k in range(len(P["seq"]))) + ("-|" if P["flag"] else "-")
+
+    def lookup(W, P):
+        names = ["a", "b", "c", "d", "e", 1, 2]  # numeric marbles are looked up as numbers
+        return {names[k % len(names)]: W.v(i) for k, i in enumerate(P["seq"][:7])}
+
+    add("from_marbles", ["marbles"], lambda W, S, P, s: rx.from_marbles(marbles(P), timespan=10, lookup=lookup(W, P), scheduler=s))
+    add("cold_marbles", ["marbles"], lambda W, S, P, s: rx.cold(marbles(P), timespan=10, lookup=lookup(W, P), scheduler=s))
+    add("hot_marbles", ["marbles"], lambda W, S, P, s: rx.hot(marbles(P), timespan=10, duetime=205, lookup=lookup(W, P), scheduler=s))
     add("if_then", ["ifthen", "case"], lambda W, S, P, s: rx.if_then(lambda: P["flag"], S[0], S[1]), 2)
     add("defer", ["defer"], lambda W, S, P, s: rx.defer(lambda sch: S[0]))
     return C
@@ -380,7 +392,7 @@ def gen_nat_case(rng, weights=None):
 
     P = {"n": rng.choice([0, 1, 1, 2, 3]), "n2": rng.choice([0, 1, 2, 5]), "t": rng.choice([5, 10, 20, 30]), "t2": rng.choice([5, 10, 15, 30]),
          "flag": rng.random() < 0.5,
-         "d": rng.choice(pool), "d2": rng.choice(pool), "seq": [rng.choice(alphabet) for _ in range(rng.choice([0, 1, 2, 4]))],
+         "d": rng.choice(pool), "d2": rng.choice(pool), "seq": [rng.choice(alphabet) for _ in range(rng.choice([0, 1, 2, 4, 6]))],
          "pred": table(lambda: (["raise", "cb"] if rng.random() < 0.04 else ["b", rng.random() < 0.6])),
          "map": table(spec_v), "ikey": table(lambda: ["i", rng.randrange(3)])}
     case = {"op": "nat", "entry": entry, "alphabet": alphabet, "P": P,
@@ -554,6 +566,10 @@ def impl(case):
 
 def model_request(case):
     return None if case["op"] == "nat" else case
+
+
+def canon_impl(case, out):
+    return out if case["op"] == "nat" else C05.canon_impl(case, out)
 
 
 def oracle(case, out):
